@@ -84,6 +84,25 @@ pub fn k7a(p: &Program) -> bool {
     false
 }
 
+/// Bit mask of the locations that put a program into K7a / K7b.
+pub fn k7_locations(p: &Program) -> u32 {
+    let mut mask = 0u32;
+    for l in 0..p.n_atomics() as u8 {
+        let rmw_th: Vec<usize> = p.ops().filter(|(_, _, o)| is_rmw(o) == Some(l)).map(|(t, _, _)| t).collect();
+        let st_th: Vec<usize> = p.ops().filter(|(_, _, o)| is_store(o) == Some(l)).map(|(t, _, _)| t).collect();
+        let b = rmw_th.iter().any(|a| st_th.iter().any(|b| a != b));
+        let ws: Vec<usize> = rmw_th.iter().chain(st_th.iter()).cloned().collect();
+        let mut th = ws.clone();
+        th.sort();
+        th.dedup();
+        let a = ws.len() >= 3 && th.len() >= 2 && !st_th.is_empty();
+        if a || b {
+            mask |= 1 << l;
+        }
+    }
+    mask
+}
+
 pub fn atomics_class(p: &Program) -> Option<String> {
     if k7b(p) {
         Some("k7b".into())
